@@ -35,6 +35,9 @@ type evalReq struct {
 
 var evalProcessCh = make(chan evalReq, 100)
 
+// evalOnce starts the evaluation routines once per process (they never exit).
+var evalOnce sync.Once
+
 // evalRoutines starts a set of concurrent evaluation routines.
 func evalRoutines() {
 	for i := 0; i < runtime.NumCPU(); i++ {
@@ -140,7 +143,7 @@ func marchingCubes(s sdf.SDF3, box sdf.Box3, step float64, output sdf.Triangle3W
 	inc := size.Div(conv.V3iToV3(steps))
 
 	// start the evaluation routines
-	evalRoutines()
+	evalOnce.Do(evalRoutines)
 
 	// create the SDF layer cache
 	l := newLayerYZ(base, inc, steps)
